@@ -24,6 +24,10 @@ def _task(sc):
     except ExecTimeout as exc:
         out['viol'].append((-1, 'hang', 'hang', f'operation did not finish: {exc}'))
         return out
+    except RuntimeError as exc:
+        # a public operation of the scenario's setup failed on a fresh container: report it, do not abort the run
+        out['viol'].append((-1, 'setup', 'setup-failed', str(exc)))
+        return out
     try:
         out['boundaries'] = len(labels)
         out['labels'] = labels
